@@ -1610,6 +1610,13 @@ func (ms *MetricsSegment) FlushMetricNames() error {
 
 	filePath := fmt.Sprintf("%s%d.mnm", ms.metricsKeyBase, ms.Suffix)
 
+	// after a crash the names of a segment can be recovered before any of its blocks was written
+	err := os.MkdirAll(filepath.Dir(filePath), 0764)
+	if err != nil {
+		log.Errorf("FlushMetricNames: failed to create directory for filename=%v: err=%v", filePath, err)
+		return err
+	}
+
 	fd, err := os.OpenFile(filePath, os.O_WRONLY|os.O_CREATE, 0644)
 	if err != nil {
 		log.Errorf("FlushMetricNames: failed to open filename=%v: err=%v", filePath, err)
@@ -2335,6 +2342,7 @@ func RecoverMNameWALData() {
 	for _, fileData := range walFilesData {
 		ms := initSegment(fileData.segID, strconv.FormatUint(fileData.mId, 10))
 		isWalFileEmpty := true
+		replayedFiles := make([]string, 0, len(fileData.walFiles))
 		for _, walFileName := range fileData.walFiles {
 
 			filePath := filepath.Join(mNameWalDir, walFileName)
@@ -2359,10 +2367,7 @@ func RecoverMNameWALData() {
 				isWalFileEmpty = false
 			}
 			_ = walIterator.Close()
-			err = deleteWalFile(mNameWalDir, walFileName)
-			if err != nil {
-				log.Warnf("RecoverMNameWALData : Failed to delete wal file %s: %v", walFileName, err)
-			}
+			replayedFiles = append(replayedFiles, walFileName)
 		}
 
 		if !isWalFileEmpty {
@@ -2370,9 +2375,18 @@ func RecoverMNameWALData() {
 			if err != nil {
 				log.Warnf("RecoverMNameWALData :Failed to flush Metrics Name for shardID=%d, segID=%d,: %v",
 					fileData.mId, fileData.segID, err)
+				continue
 			}
 		}
 
+		// The WAL files are the only copy of the metric names until they are flushed:
+		// delete them after the flush, so that a restart that dies here can replay them again.
+		for _, walFileName := range replayedFiles {
+			err := deleteWalFile(mNameWalDir, walFileName)
+			if err != nil {
+				log.Warnf("RecoverMNameWALData : Failed to delete wal file %s: %v", walFileName, err)
+			}
+		}
 	}
 }
 
